@@ -238,11 +238,23 @@ func init() {
 				}
 				out = append(out, inst("internal/receiver", "HRecvArbitrary", "m", m, "k", k, "cut", -1))
 			}
+			// two-file session (replace + new file), stream cut or second file damaged; symlink replacement
+			cuts := []int{-1, 10, 30, 50, 70}
+			if tier == "thorough" {
+				cuts = nil
+				for c := -1; c < 95; c += 4 {
+					cuts = append(cuts, c)
+				}
+			}
+			for _, c := range cuts {
+				out = append(out, inst("internal/receiver", "HAtomicSession", "cut", c))
+			}
+			out = append(out, inst("internal/receiver", "HAtomicSymlink"))
 			return out
 		},
-		MustReach: []string{"commit", "error"},
+		MustReach: []string{"commit", "error", "success", "damaged", "linked"},
 		Redirects: sym.VfsRedirects(),
-		Bounds:    "one regular file (new or replacing an m-byte file); stream as in C03 truncated at byte offset cut (quick: every 3rd offset; thorough: every offset, k=2); invariant checked after every file-system event",
+		Bounds:    "one regular file (new or replacing an m-byte file); stream as in C03 truncated at byte offset cut (quick: every 3rd offset; thorough: every offset, k=2); a two-file session (2-byte file replaced, 1-byte file created) cut at 5 offsets (thorough: every 4th) or with one bit of the second file's data or trailer flipped; replacement/creation of a symlink; invariant checked after every file-system event of the model",
 		Outside:   "SIGKILL of a real process; atomicity of rename(2) and uniqueness of renameio's temp names are the model's contract",
 		Assumptions: []string{"event-prefix form: the state after any prefix of the event log is what a crash at that point leaves behind"},
 	})
